@@ -559,7 +559,7 @@ pub fn gen_magnitude_model(rng: &mut Rng) -> (Vec<VarDecl>, Vec<Con>) {
     let n = rng.range(2, 4) as usize;
     let mut vars: Vec<VarDecl> = vec![];
     for _ in 0..n {
-        let d = match rng.below(3) {
+        let d = match rng.below(4) {
             0 => {
                 let base = (bigval(rng) as i64).clamp(-(i32::MAX as i64) + 20, i32::MAX as i64 - 20);
                 VarDecl::sparse((0..rng.range(1, 3)).map(|_| (base + rng.range(-8, 8)) as i32).collect())
@@ -567,6 +567,14 @@ pub fn gen_magnitude_model(rng: &mut Rng) -> (Vec<VarDecl>, Vec<Con>) {
             1 => {
                 let lo = (bigval(rng) as i64).min(i32::MAX as i64 - 3);
                 VarDecl::interval(lo as i32, (lo + rng.range(0, 2)) as i32)
+            }
+            3 => {
+                // a domain that ends exactly at a 32-bit limit
+                if rng.chance(0.5) {
+                    VarDecl::interval(i32::MAX - rng.range32(0, 2), i32::MAX)
+                } else {
+                    VarDecl::interval(i32::MIN + 1, i32::MIN + 1 + rng.range32(0, 2))
+                }
             }
             _ => {
                 let lb = rng.range32(-3, 2);
@@ -696,6 +704,12 @@ pub fn run_unit(prop: &str, tier: Tier, seed: u64, want_sample: bool) -> UnitRes
         "C06" => {
             let c = crate::proofcase::generate(prop, &mut rng, thorough(tier));
             absorb_any(&mut res, crate::anycase::AnyCase::Proof(c), want_sample);
+        }
+        // a slice of C07 (and a smaller one of C02): models far beyond the enumerator (implication chains hundreds of
+        // propagations deep) with an analytic reference, under several configurations
+        "C07" | "C02" | "C18" if rng.chance(match prop { "C07" => 0.3, "C18" => 0.3, _ => 0.08 }) || std::env::var("VERIF_DEEP_ONLY").is_ok() => {
+            let c = crate::deep::DeepCase::generate(prop, &mut rng, thorough(tier));
+            absorb_any(&mut res, crate::anycase::AnyCase::Deep(c), want_sample);
         }
         "C19" => {
             let c = crate::streams::DrcpCase::generate(prop, &mut rng);
